@@ -31,7 +31,7 @@ ASSUMPTIONS = ["conditioning guard R<=8", "bound 200*epsrel*scale"]
 def required_cells(tier):
     return {"variant:differential": 6, "variant:linear": 4,
             "variant:nofield": 3, "variant:frozen": 3, "nsys:1": 3, "nsys:2": 3, "nsys:3": 1,
-            "start!=0": 4, "record_all:False": 2, "heun_steps_checked": 50,
+            "start!=0": 4, "record_all:False": 2, "reached-in-two-calls": 4, "heun_steps_checked": 50,
             "td": 4, "subdiv:None": 8, "second-solver-on-same-system": 8,
             "pulsed-H&loose-liouvillian-epsrel": 2,
             "initial-matrix:non-hermitian": 2, "add_correlation_time": 6}
@@ -214,6 +214,11 @@ def run_case(case):
     if general_init:
         cells.append("initial-matrix:non-hermitian")
     log_a.events.clear()
+    if (i // 2) % 3 == 1 and nsteps >= 2:
+        # the end time reached in two calls ("continue to propagate")
+        tempo.compute(lib.end_time(start, dt, nsteps // 2),
+                      progress_type="silent")
+        cells.append("reached-in-two-calls")
     dyn_a = tempo.compute(end, progress_type="silent")
     fa = np.array(dyn_a.fields)
     ta = np.array(dyn_a.times)
